@@ -255,7 +255,8 @@ func remoteSeeds(full bool) []string {
 	hosts := []string{"example.com", "EXAMPLE.com", "example.com:8080", "[::1]"}
 	paths := []string{"/repo.git", "/foo.tgz", "/foo.tar.gz", "/foo", "/a%2Fb.tgz", "/a b.tgz"}
 	subs := []string{"", "//sub", "//sub/dir", "//a b", "//a%20b", "//é", "//a@b", "//sub#f", "//.", "//..", "//a//b", "//", "//a/../b", "//a?b"}
-	queries := []string{"", "?ref=main", "?ref=a&ref=b", "?depth=1", "?archive=tgz", "?archive=tar.gz", "?archive=zip", "?checksum=x", "?b=1&archive=tgz&a=2", "?", "?ref=a%20b", "?ref=%zz", "?archive=tgz&archive=tgz"}
+	queries := []string{"", "?ref=main", "?ref=a&ref=b", "?depth=1", "?archive=tgz", "?archive=tar.gz", "?archive=zip", "?checksum=x", "?b=1&archive=tgz&a=2", "?", "?ref=a%20b", "?ref=%zz", "?archive=tgz&archive=tgz",
+		"?ref=main&depth=%zz", "?checksum=x;y=1", "?archive=tar%2Egz", "?%61rchive=tar.gz", "?xarchive=tar.gz&archive=tar.gz", "?ref=v1&ref=v2%zz", "?archive=tar.gz&x=archive%3Dtar.gz"}
 	frags := []string{"", "#frag"}
 	if !full {
 		types = []string{"", "git::", "GIT::", "http::"}
@@ -263,7 +264,8 @@ func remoteSeeds(full bool) []string {
 		users = []string{"", "u:p@"}
 		hosts = []string{"example.com", "EXAMPLE.com:8080"}
 		subs = []string{"", "//sub", "//sub/dir", "//a b", "//é", "//a@b", "//..", "//a//b", "//"}
-		queries = []string{"", "?ref=main", "?ref=a&ref=b", "?depth=1", "?archive=tgz", "?archive=tar.gz", "?checksum=x", "?b=1&archive=tgz&a=2", "?"}
+		queries = []string{"", "?ref=main", "?ref=a&ref=b", "?depth=1", "?archive=tgz", "?archive=tar.gz", "?checksum=x", "?b=1&archive=tgz&a=2", "?",
+			"?ref=main&depth=%zz", "?checksum=x;y=1", "?archive=tar%2Egz", "?%61rchive=tar.gz", "?xarchive=tar.gz&archive=tar.gz"}
 	}
 	var out []string
 	for _, t := range types {
